@@ -588,8 +588,25 @@ example : (exState.snaps.map (·.2)) = [2, 2, 4] ∧ exState2.snaps = [(Owner.re
 example : ∀ k, view bytewise exState2.hist k 2 = view bytewise exState.hist k 2 :=
   (snapshot_stable exState_reachable (Owner.user 1, 2) (by decide) exState2_steps).1
 
+/-- The configuration of the interleaving model that the SOURCE exhibits: each flag of `Cfg` is the negation of an
+order fact the extractor reads off the Go AST on every run (`Gen/Consts.lean`): `memCompaction` commits before it
+drops the frozen buffer; `DB.get`/`has`/`newRawIterator` take the buffers before the version; `OpenTransaction`
+waits for a pending frozen-buffer flush (repair of D3); `Transaction.discard` advances the sequence number past the
+discarded range (repair of D16). -/
+def codeCfg : Cfg :=
+  { dropEarly := !Gen.ordFlushCommitBeforeDrop
+    verFirst := !Gen.ordReadersBuffersBeforeVersion
+    trOverFrozen := !Gen.ordOpenTxWaitsForFrozenFlush
+    discardReusesSeq := !Gen.ordDiscardKeepsSeq }
+
+/-- the code as it is lies in the configuration all theorems above are about (each of the other configurations has an
+explicit violating trace: `dropEarly_breaks`, `verFirst_breaks`, `trOverFrozen_breaks`, `C11.discardReuse_breaks`);
+and a group is inserted into the buffer before its sequence number is published (the order of the model's
+`writeInsert` / `writePublish` steps) -/
+theorem code_is_real : codeCfg = Cfg.real ∧ Gen.ordApplyBeforePublish = true := by decide
+
 def theorems : List String :=
-  ["GoLevel.C05.pub_monotone", "GoLevel.C05.published_in_hist", "GoLevel.C05.cover_invariant",
+  ["GoLevel.C05.code_is_real", "GoLevel.C05.pub_monotone", "GoLevel.C05.published_in_hist", "GoLevel.C05.cover_invariant",
    "GoLevel.C05.floor_monotone", "GoLevel.C05.reader_seq_is_pub", "GoLevel.C05.reader_triple_fixed",
    "GoLevel.C05.read_linearizable", "GoLevel.C05.lookup_correct", "GoLevel.C05.lookup_order_irrelevant",
    "GoLevel.C05.no_wrong_read", "GoLevel.C05.dropEarly_breaks", "GoLevel.C05.verFirst_breaks",
